@@ -23,6 +23,13 @@
 //	             values, consumed by the call chains of the example clients
 //	             (device authorization -> poll with the answered interval, ...)
 //	             (chain_test.go)
+//	(c3) hostile-timing  one provider call of a helper parked in the transport; the
+//	             events {caller gives up, second caller arrives, second caller gives
+//	             up, provider answers} in every order, synctest.Wait after each
+//	             (timing_test.go)
+//
+// Every execution of the client-side parts runs in a child process (child_test.go):
+// a panic in a goroutine the library started itself kills the process.
 //
 // The oracle is written from the statement: no panic; at most one WriteHeader;
 // after a status >= 400 no further storage call; a JSON body is exactly one JSON
@@ -433,6 +440,7 @@ func TestCheck(t *testing.T) {
 		"a client helper returning (nil, nil) is recorded as outcome nil-nil and not judged (the statement only excludes panics and non-termination)",
 		"entry 'direct' calls the exported grant handlers op.CodeExchange / RefreshTokenExchange / ClientCredentialsExchange / JWTProfile / TokenExchange / DeviceAccessToken with the provider as Exchanger, i.e. without the form pre-parse of op.Exchange",
 		"time: every execution runs in a synctest bubble at Epoch+1s; helper calls get a 10 min fake-time deadline",
+		"part hostile-timing: the parked provider call is the only open one; events are separated by synctest.Wait (quiescence of the bubble), so no wall-clock time decides an order",
 		"part resp: fault positions per scenario are bounded by the observed number of storage calls of the final request + 2; part hostile-num: the scripted provider takes 100 ms of fake time per call and at most 20000 calls per execution",
 	)
 	walls := map[string]float64{}
@@ -449,5 +457,6 @@ func TestCheck(t *testing.T) {
 		walls[p.name] = time.Since(st).Seconds()
 	}
 	c.Extra("part_wall_s", walls)
+	stopChildren()
 	c.Finish()
 }
